@@ -151,14 +151,18 @@ def check(prop, tier, master, workers, budget_s, nruns, repo, write_evidence=Tru
         # (oracle O3 on a tiny batch, minimised, replayed).  The other properties cannot be judged
         # against a reference that does not hold still.
         if prop != "C09":
-            raise HarnessError("canonical run is not self-consistent (groups %r): C09 is violated; "
-                               "%s cannot be judged on this tree" % (unstable, prop))
-        log("note: canonical digest is not idempotent for groups %r; running a reduced batch" % (unstable,))
-        nruns = min(nruns, 48)
-        tier = "quick"
+            # not this property's business: leave the unstable groups out of every comparison
+            log("note: canonical digest is not idempotent for groups %r (a C09 violation, reported by "
+                "./check c09); %s is judged on the remaining groups" % (unstable, prop))
+            runner.UNSTABLE = set(unstable)
+            degraded = False
+        else:
+            log("note: canonical digest is not idempotent for groups %r; running a reduced batch" % (unstable,))
+            nruns = min(nruns, 48)
+            tier = "quick"
 
     W = runner.Worker(repo)      # local worker: minimisation, replay, determinism cells
-    if W.canon_hashes != canon_hashes and not degraded:
+    if any(W.canon_hashes[g] != canon_hashes[g] for g in canon_hashes if g not in unstable):
         raise HarnessError("worker replica digest differs from canonical digest")
 
     # known findings must still reproduce from their committed replay files
@@ -337,6 +341,7 @@ def check(prop, tier, master, workers, budget_s, nruns, repo, write_evidence=Tru
             "minimisation": min_stats,
             "model_notes": dict(sorted(agg["notes"].items())),
             "canonical_digest": canon_hashes,
+            "canonical_groups_not_idempotent": list(unstable),
             "workers": workers,
         },
         "assumptions": [
